@@ -148,7 +148,15 @@ class Emit:
         if e["k"] != "Block":
             return self.stmt_expr(e, env, depth, owner)
         env = dict(env)
-        for s in e["stmts"]:
+        skip = set()
+        for si_, s in enumerate(e["stmts"]):
+            if si_ in skip:
+                continue
+            fj = self.first_then_rest(e["stmts"], si_, env, depth, owner)
+            if fj is not None:
+                out.append(fj)
+                skip.update((si_ + 1, si_ + 2))
+                continue
             if s["k"] == "Let":
                 if s["pat"]["k"] == "Slice" and s.get("init") is not None and strip(s["init"])["k"] == "Array" and not s["pat"].get("slice") \
                         and len(s["pat"].get("before", [])) + len(s["pat"].get("after", []) or []) == len(strip(s["init"])["elems"]):
@@ -180,6 +188,46 @@ class Emit:
         if e.get("expr"):
             out += self.stmt_expr(e["expr"], env, depth, owner)
         return canon_into(out)
+
+    def first_then_rest(self, stmts, i, env, depth, owner):
+        """`let Some(first) = it.next() else { return }; sink.push_str(&first); it.for_each(|x| { sink.push_str(sep); sink.push_str(&x) })`
+        (or a `for x in it` as the third statement) writes the items of `it` with sep between them: the ("join", ..) op of the
+        `enumerate` / `if i != 0` form; else None"""
+        if i + 2 >= len(stmts):
+            return None
+        a, b, c = stmts[i], stmts[i + 1], stmts[i + 2]
+        if not (a["k"] == "Let" and a.get("els") is not None and a.get("init") is not None and b["k"] in ("Semi", "Expr") and c["k"] in ("Semi", "Expr")):
+            return None
+        try:
+            if hir.pat_variants(a["pat"]) != {"Some"}:
+                return None
+        except Unrecognised:
+            return None
+        sub = (a["pat"].get("pats") or [fd["pat"] for fd in a["pat"].get("fields", [])] or [{}])[0]
+        init = strip(a["init"])
+        if sub.get("k") != "Binding" or not (init["k"] == "MethodCall" and init["method"] == "next" and not init["args"]):
+            return None
+        src = field_path(init["recv"])
+        if not src or len(src) != 1 or not hir.leaves(a["els"]) or [n for n in hir.walk(a["els"]) if n.get("k") in ("MethodCall", "Call")]:
+            return None
+        bx = strip(b["expr"])
+        if not (bx["k"] == "MethodCall" and bx["method"] in ("push_str", "push") and self.is_sink(bx["recv"], env)):
+            return None
+        arg = strip(bx["args"][0])
+        while arg.get("k") in ("AddrOf", "Deref") or (arg.get("k") == "Unary" and arg.get("op") in ("*", "Deref")):
+            arg = strip(arg["e"])
+        if field_path(arg) != (sub["name"],):
+            return None
+        cx = strip(c["expr"])
+        is_fe = cx["k"] == "MethodCall" and cx["method"] == "for_each" and field_path(cx["recv"]) == src
+        is_for = cx["k"] == "Match" and "ForLoop" in cx.get("source", "") and strip(cx["scrut"])["k"] == "Call" and strip(cx["scrut"])["args"] \
+            and field_path(strip(cx["scrut"])["args"][0]) == src
+        if not (is_fe or is_for):
+            return None
+        lp = self.stmt_expr(cx, env, depth, owner)
+        if len(lp) == 1 and isinstance(lp[0], tuple) and lp[0][0] == "loop" and len(lp[0][2]) >= 2 and lp[0][2][-1] == "item":
+            return ("join", "enumerate(%s)" % lp[0][1], list(lp[0][2][:-1]), "item")
+        return None
 
     def join_value(self, a, env):
         """`sink.push_str(&src.map(f).collect::<Vec<_>>().join(sep))` writes the items of src rendered by f with sep between them: the same
